@@ -42,6 +42,7 @@ THEOREMS = [
     "Mesa.Viz.C20_layer_cells_show_their_values",
     "Mesa.Viz.C20_layers_drawn_are_the_requested_ones",
     "Mesa.Viz.C20_layers_refused",
+    "Mesa.Viz.C20_draw_space_with_layers",
     "Mesa.Viz.C20_V13_range_without_extent",
     "Mesa.Viz.C20_layer_color_modes_agree_in_range",
     "Mesa.Viz.C20_check_accepts_iff_binds_by_keyword",
@@ -136,7 +137,7 @@ def nontrivial(sc, obs):
         w = l.split()
         if w[0] in ("collect", "collectd") and re.match(r"ok n=([2-9]|\d\d)", o):
             return True
-        if w[0] in ("draw", "drawc", "drawc0", "drawk") and sum(int(n) for n in re.findall(r" n=(\d+)", o)) >= 2:
+        if w[0] in ("draw", "drawc", "drawc0", "drawk", "drawsp") and sum(int(n) for n in re.findall(r" n=(\d+)", o)) >= 2:
             return True
         if w[0] in ("altair", "altairc", "altairc0") and o.count(" | ") >= 2:
             return True
@@ -173,6 +174,8 @@ def tags(sc, obs):
                 yield "branch:ignored-fields-warning"
             if w[0] == "drawlayer":
                 yield "layer:" + w[1] + ":" + (o.split()[3] if o.startswith("ok |") else o)
+            if w[0] == "drawsp":
+                yield "drawsp:" + (o if o.startswith("err") else "empty-request" if len(w) == 1 else "agents+layers")
             if w[0] == "drawlayers":
                 yield "layers:" + (o if o.startswith("err") else f"{o.count(' | ')}-of-{len(w) - 1}")
                 for t in w[1:]:
